@@ -33,7 +33,7 @@ import threading
 import lib
 
 RUNNER = "relcond"
-FID = "F23"
+FID = "F25"
 THEOREMS = ["c13_exact_triple_calls", "c13_exact_triple_holds", "c13_at_most_once", "c13_memo_transparent",
             "c13_fresh_per_decision", "c13_fail_closed_decision"]
 SLOW_T = 0.4     # patched time-out (s) in cases with a slow checker
@@ -78,17 +78,17 @@ def has_nonjson(v):
     return False
 
 
-_F23 = {"present": None}
+_F25 = {"present": None}
 
 
 def f23_present():
-    """the model's switch for finding F23, set by running the witness on the implementation:
+    """the model's switch for finding F25, set by running the witness on the implementation:
     True = a datetime and its str() text share a memo key (the tree as it is)"""
-    if _F23["present"] is None:
+    if _F25["present"] is None:
         from rbacx.core.policy import _ctx_hash
         t = _dt.datetime(2020, 1, 1, tzinfo=_dt.timezone.utc)
-        _F23["present"] = _ctx_hash({"t": t}) == _ctx_hash({"t": str(t)})
-    return _F23["present"]
+        _F25["present"] = _ctx_hash({"t": t}) == _ctx_hash({"t": str(t)})
+    return _F25["present"]
 
 
 def dates_of(*vals):
@@ -708,7 +708,7 @@ def judge_decision(chk, case, where, policy, req, kind, impl, model, others, rep
     if nd != npure:
         in_class = f23_class(policy, req)
         if in_class and nd == nmemo:
-            chk.known(FID)
+            chk.known(FID, case, impl=show, model=mshow)
             chk.count("known:" + FID)
             return "known"
         if isinstance(D, dict) and D.get("allowed") and not (isinstance(mp_, dict) and mp_.get("allowed")):
@@ -1245,7 +1245,7 @@ def hash_cases(chk):
 def f23_cases():
     t = _dt.datetime(2020, 1, 1, tzinfo=_dt.timezone.utc)
     pol = single({"and": [{"rel": "viewer"}, node("viewer", ctx={"t": str(t)})]})
-    return [seq_case("F23", pol, [mkreq(ctx={"_rebac": {"t": t}})], "sync", [{"mode": "has_dt"}])]
+    return [seq_case("F25", pol, [mkreq(ctx={"_rebac": {"t": t}})], "sync", [{"mode": "has_dt"}])]
 
 
 def corpus_cases():
